@@ -52,6 +52,12 @@ def split_commas(text):
     return {'items': split_on_commas(text)}
 
 
+def listing_chunks(bs, k):
+    """the strings the listing printer spreads the bytes of one statement over"""
+    from bespokeasm.assembler.pretty_printer.listing import ListingPrettyPrinter
+    return {'rows': ListingPrettyPrinter._generate_bytecode_line_string(bytearray(bs), k)}
+
+
 def version_cmp(a, b):
     """the comparison the ISA min_version gate relies on"""
     from packaging import version
